@@ -47,7 +47,7 @@ SHARDS = {"quick": 1, "thorough": 48}     # many small fresh processes (semantiv
 SHARD_TIMEOUT = {"thorough": 2400}
 N_BATCHES = {"quick": 50, "thorough": 80}     # per shard
 WATCHDOG_S = float(os.environ.get("C15_WATCHDOG", "120"))   # per batch; firing => inconclusive, never a violation
-FAIL_KINDS = ["boom", "unresolvable", "type_gate", "yaml_unloadable"]
+FAIL_KINDS = ["boom", "unresolvable", "type_gate", "yaml_unloadable", "raise_odd"]
 TOKEN_PREFIXES = ("tok_", "probe_", "final_", "label_", "sp_", "scaled_", "moved_")
 
 
@@ -72,6 +72,13 @@ def make_job(rng: random.Random, g, b: int, j: int, fail_kind=None, force=None) 
         if fail_kind == "boom":
             nodes = list(chain)
             nodes.insert(rng.randrange(len(nodes) + 1), {"processor": "VBoom"})
+        elif fail_kind == "raise_odd":
+            # the pipeline raises an exception whose class does not take "one message string" (UnicodeDecodeError,
+            # ExceptionGroup, OSError with errno/filename, a two-argument user exception, ...)
+            from vlib.components import ODD_EXCEPTION_KINDS
+
+            nodes = list(chain)
+            nodes.insert(rng.randrange(len(nodes) + 1), {"processor": "VRaise", "parameters": {"exc": ODD_EXCEPTION_KINDS[(b + j) % len(ODD_EXCEPTION_KINDS)]}})
         elif fail_kind == "unresolvable":
             nodes = [chain[0], {"processor": "VAdd"}, chain[2]]          # addend neither configured nor in context
         elif fail_kind == "type_gate":
